@@ -37,6 +37,7 @@ import numpy as np
 
 from ..cert import DM, chol_factor, frac_json
 from ..common import InfraError
+from ..exact import Pure, call_rng, describe, present_list, present_nd
 from ..pool import Result, fold, run_pool, worker_driver
 from .. import qgen
 
@@ -50,7 +51,11 @@ RULE = ("extended games: referee dimension 2..3, |A|,|B|,|X|,|Y| in 1..3 (at mos
         "players have a choice or unequal alphabets and the game is complex or asymmetric; cloning: 2..4 real qubit states as column vectors with dyadic priors, reps 1..2, corpus Wiesner. "
         "non-trivial (games) = certified interval narrower than 1e-4 and best function pair beats the best constant pair by >= 1e-2 "
         "or players have unequal alphabets; (hedging/cloning) = certified interval narrower than 1e-4 and optimum >= 1e-2 away from "
-        "the trivial bounds tr(Q)/a and b*lambda_max(Q) (max) resp. 0 and tr(Q)/a (min); distinct = hash of the exact inputs and the function called")
+        "the trivial bounds tr(Q)/a and b*lambda_max(Q) (max) resp. 0 and tr(Q)/a (min); distinct = hash of the exact inputs and the function called; "
+        "presentation: every ExtendedNonlocalGame / QuantumHedging object and every optimal_clone call receives the same values in a freshly drawn presentation "
+        "(C / Fortran / strided / permuted-axes memory layout of the 2-D and 6-D arrays; real-valued data as float64, integer-valued data as int64; the cloning states "
+        "independently per list element); the objects handed over must be untouched after every method call; unentangled_value and (one in three, n = 1) the hedging "
+        "programs are called a second time on the same object and must return the same value")
 ASSUMPTIONS = [
     "toqito computes with the float inputs it is given; the instance certified is their exact dyadic image (difference <= 1e-15 relative)",
     "all programs are solved by cvxpy's default solver (SCS, eps 1e-4): tolerance 1e-3 on returned values (DESIGN.md 4.4), 2e-3 on primal/dual agreement",
@@ -281,7 +286,12 @@ def work_game(task, res: Result):
         res.violation("certified unentangled value disagrees with the known closed form (harness or cited value wrong)", {"function": "closed-form", "args": base, "closed": inst["closed"], "certified": [lo, hi]})
     gap = (lo - hi_c) if (cert and cert_c) else 0.0
     unequal = (A != B) or (X != Y)
-    game = ExtendedNonlocalGame(prob, pred)
+    # the same values in a presentation drawn for this task; the game object keeps references to the arrays handed over
+    prng = call_rng(inst.get("pres"), "game")
+    a_prob, a_pred = present_nd(prng, prob.copy()), present_nd(prng, pred.copy())
+    guard = Pure(a_prob, a_pred)
+    base["pres"] = inst.get("pres")
+    game = ExtendedNonlocalGame(a_prob, a_pred)
     vals = {}
     ns_bound = float(sum(prob[x, y] * max(np.linalg.eigvalsh((pred[:, :, a, b, x, y] + pred[:, :, a, b, x, y].conj().T) / 2)[-1] for a in range(A) for b in range(B)) for x in range(X) for y in range(Y)))
     for name in calls:
@@ -301,13 +311,17 @@ def work_game(task, res: Result):
             else:
                 continue
             v = float(v)
+            if guard is not None and guard.modified() is not None:
+                res.violation(f"ExtendedNonlocalGame.{name}: caller's arguments were modified ({guard.modified()}; arg0 = prob_mat, arg1 = pred_mat)",
+                              {"function": name, "args": desc, "modified": guard.modified(), "presentation": describe([a_prob, a_pred]), "check": "purity"})
+                guard = None
         except (ArithmeticError, ZeroDivisionError):
             res.case(desc, False, f"game/{name}/solver-numerical-failure")
             continue
         except Exception as e:
             res.case(desc, True, f"game/{name}/raise")
             res.violation(f"ExtendedNonlocalGame.{name} raises {type(e).__name__}: {str(e)[:100]} on a valid game of shape (d,A,B,X,Y)={d, A, B, X, Y}",
-                          {"function": name, "args": desc, "exception": f"{type(e).__name__}: {str(e)[:300]}", "shape": [d, A, B, X, Y]})
+                          {"function": name, "args": desc, "exception": f"{type(e).__name__}: {str(e)[:300]}", "shape": [d, A, B, X, Y], "presentation": describe([a_prob, a_pred])})
             continue
         if not np.isfinite(v):
             res.case(desc, False, f"game/{name}/solver-nonfinite")
@@ -333,6 +347,16 @@ def work_game(task, res: Result):
                 res.violation(f"nonsignaling_value = {v:.6f} is below the certified unentangled value >= {lo:.6f}", {"function": "nonsignaling_value", "args": desc, "impl": v, "certified_unentangled": [lo, hi], "tau": TAU, "theorem": "checkUnentLower_sound"})
             if v > ns_bound + TAU:
                 res.violation(f"nonsignaling_value = {v:.6f} exceeds sum_xy pi(x,y) max_ab ||P_abxy|| = {ns_bound:.6f}", {"function": "nonsignaling_value", "args": desc, "impl": v, "bound": ns_bound, "tau": TAU})
+    # ---- the same object again, after every other method has run on it
+    if "unentangled" in vals:
+        try:
+            v2 = float(game.unentangled_value())
+            res.count("repeat-call/unentangled")
+            if abs(v2 - vals["unentangled"]) > 1e-9:
+                res.violation(f"unentangled_value: a second call on the same game (after {calls}) returns {v2!r}, the first returned {vals['unentangled']!r}",
+                              {"function": "unentangled_value", "kind": "repeat", "args": dict(base, fn="unentangled"), "values": [vals["unentangled"], v2], "presentation": describe([a_prob, a_pred]), "check": "repeat"})
+        except Exception as e:  # noqa: BLE001
+            res.violation(f"unentangled_value raises {type(e).__name__} on a second call", {"function": "unentangled_value", "kind": "repeat", "args": dict(base, fn="unentangled"), "exception": str(e)[:300]})
     # ---- ordering of the returned floats
     for k in ("npa1", "npa2"):
         if k in vals and "nonsignaling" in vals and vals[k] > vals["nonsignaling"] + 2 * TAU:
@@ -528,19 +552,34 @@ def work_hedge(task, res: Result):
             pass
     lam = float(np.linalg.eigvalsh(Qf)[-1])
     trq = float(np.trace(Qf).real) / a
-    h = QuantumHedging(Q, n)
+    prng = call_rng(inst.get("pres"), "hedge")
+    a_Q = present_nd(prng, np.array(Q, copy=True))
+    guard = Pure(a_Q)
+    base["pres"] = inst.get("pres")
+    again = n == 1 and prng is not None and int(prng.integers(3)) == 0
+    h = QuantumHedging(a_Q, n)
     vals = {}
     for name, fn, which in (("max_prob_outcome_a_primal", h.max_prob_outcome_a_primal, "max"), ("max_prob_outcome_a_dual", h.max_prob_outcome_a_dual, "max"),
                             ("min_prob_outcome_a_primal", h.min_prob_outcome_a_primal, "min"), ("min_prob_outcome_a_dual", h.min_prob_outcome_a_dual, "min")):
         desc = dict(base, fn=name)
         try:
             v = float(fn())
+            if guard is not None and guard.modified() is not None:
+                res.violation(f"QuantumHedging.{name}: caller's arguments were modified ({guard.modified()})",
+                              {"function": name, "args": desc, "modified": guard.modified(), "presentation": describe(a_Q), "cplx": cplx, "check": "purity"})
+                guard = None
+            if again:
+                v2 = float(fn())   # the SAME object again
+                res.count("repeat-call/hedge")
+                if np.isfinite(v) and np.isfinite(v2) and abs(v2 - v) > 2 * TAU:
+                    res.violation(f"QuantumHedging.{name}: a second call on the same object returns {v2:.6f}, the first returned {v:.6f}",
+                                  {"function": name, "args": desc, "values": [v, v2], "presentation": describe(a_Q), "cplx": cplx, "check": "repeat"})
         except (ArithmeticError, ZeroDivisionError):
             res.case(desc, False, f"hedge/{name}/solver-numerical-failure")
             continue
         except Exception as e:
             res.case(desc, True, f"hedge/{name}/raise")
-            res.violation(f"QuantumHedging.{name} raises {type(e).__name__}: {str(e)[:120]}", {"function": name, "args": desc, "exception": f"{type(e).__name__}: {str(e)[:300]}", "cplx": cplx})
+            res.violation(f"QuantumHedging.{name} raises {type(e).__name__}: {str(e)[:120]}", {"function": name, "args": desc, "exception": f"{type(e).__name__}: {str(e)[:300]}", "cplx": cplx, "presentation": describe(a_Q)})
             continue
         if not np.isfinite(v):
             res.case(desc, False, f"hedge/{name}/solver-nonfinite")
@@ -612,14 +651,19 @@ def work_clone(task, res: Result):
     vals = {}
     try:
         for name, strat in (("dual", False), ("primal", True)):
-            desc = dict(base, fn="optimal_clone", strategy=strat)
+            desc = dict(base, fn="optimal_clone", strategy=strat, pres=inst.get("pres"))
+            a_states, a_probs = present_list(call_rng(inst.get("pres"), "clone", name), states), list(probs)
+            guard = Pure(a_states, a_probs)
             try:
-                vals[name] = float(oc.optimal_clone(states, probs, n, strat))
+                vals[name] = float(oc.optimal_clone(a_states, a_probs, n, strat))
+                if guard.modified() is not None:
+                    res.violation(f"optimal_clone(strategy={strat}, num_reps={n}): caller's arguments were modified ({guard.modified()})",
+                                  {"function": "optimal_clone", "kind": "purity", "args": desc, "modified": guard.modified(), "presentation": describe(a_states), "check": "purity"})
             except (ArithmeticError, ZeroDivisionError):
                 res.case(desc, False, f"clone/n{n}/{name}/solver-numerical-failure")
             except Exception as e:
                 res.case(desc, True, f"clone/n{n}/{name}/raise")
-                res.violation(f"optimal_clone(strategy={strat}, num_reps={n}) raises {type(e).__name__}: {str(e)[:120]}", {"function": "optimal_clone", "args": desc, "exception": f"{type(e).__name__}: {str(e)[:300]}"})
+                res.violation(f"optimal_clone(strategy={strat}, num_reps={n}) raises {type(e).__name__}: {str(e)[:120]}", {"function": "optimal_clone", "args": desc, "exception": f"{type(e).__name__}: {str(e)[:300]}", "presentation": describe(a_states)})
     finally:
         oc.dual_problem, oc.primal_problem = orig_dual, orig_primal
     r = drv.ask("c09_clone_q", {"m": 2, "states": [DM.exact_float(s).json() for s in states], "probs": [frac_json(_fr(p)) for p in probs]})
@@ -962,7 +1006,7 @@ def _ext_desc(fn, inst, k, f, g, rho):
     prob, pred = np.asarray(inst["prob"], dtype=float), np.asarray(inst["pred"])
     d, _, A, B, X, Y = pred.shape
     return {"part": "ext_embed", "fn": fn, "kind": inst["kind"], "shape": [d, A, B, X, Y], "cplx": inst["cplx"], "k": k, "prob": prob.tolist(), "pred": _ri(pred),
-            "f": [int(t) for t in f], "g": [int(t) for t in g], "rho": rho}
+            "f": [int(t) for t in f], "g": [int(t) for t in g], "rho": rho, "pres": inst.get("pres")}
 
 
 def _ext_nontrivial(shape, cplx, f, g):
@@ -1033,7 +1077,8 @@ def work_ext_npa(task, res: Result):
     shape = (d, A, B, X, Y)
     base = _ext_desc("ext_npa_embed", inst, k, [], [], None)
     try:
-        game = ExtendedNonlocalGame(prob.copy(), pred.copy())
+        prng = call_rng(inst.get("pres"), "ext_npa", k)
+        game = ExtendedNonlocalGame(present_nd(prng, prob.copy()), present_nd(prng, pred.copy()))
         probs = _capture(lambda: game.commuting_measurement_value_upper_bound(k))
     except Exception as e:  # noqa: BLE001
         res.case(base, True, "ext/npa/raise")
@@ -1250,7 +1295,8 @@ def work_ext_ns(task, res: Result):
     shape = (d, A, B, X, Y)
     base = _ext_desc("ext_ns_embed", inst, None, [], [], None)
     try:
-        game = ExtendedNonlocalGame(prob.copy(), pred.copy())
+        prng = call_rng(inst.get("pres"), "ext_ns")
+        game = ExtendedNonlocalGame(present_nd(prng, prob.copy()), present_nd(prng, pred.copy()))
         probs = _capture(lambda: game.nonsignaling_value())
     except Exception as e:  # noqa: BLE001
         res.case(base, True, "ext/ns/raise")
@@ -1362,10 +1408,13 @@ def ext_tasks(ctx, quick):
     return npa, ns
 
 
-def ext_embedding(ctx, quick):
+def ext_embedding(ctx, quick, prs=None):
     import time as _t
     t0 = _t.time()
     npa, ns = ext_tasks(ctx, quick)
+    if prs is not None:
+        for t in npa + ns:
+            t["inst"].setdefault("pres", int(prs.integers(1, 2 ** 31)))
     run_pool(ctx, work_ext_npa, npa)
     run_pool(ctx, work_ext_ns, ns)
     h = ctx.hist
@@ -1408,6 +1457,9 @@ def run(ctx, model_ok=True):
         games.append(gen_game(rng, quick))
     tasks = []
     n_seesaw = 0
+    prs = rng.spawn(1)[0]   # presentation stream: a child of the seeded generator (spawning does not consume the parent's draws)
+    for g in games:
+        g["pres"] = int(prs.integers(1, 2 ** 31))
     for i, g in enumerate(games):
         d, _, A, B, X, Y = g["pred"].shape
         small = d == 2 and max(A, B, X, Y) <= 2
@@ -1415,6 +1467,10 @@ def run(ctx, model_ok=True):
         if ss:
             n_seesaw += 1
         tasks.append((g, _game_calls(g, ss, i < 12 or not quick), int(rng.integers(1 << 30))))
+    # the echo game once more with its 0/1 operator entries handed over as int64 (a buffer that takes its dtype from pred_mat truncates the
+    # weights); appended with a seed from the presentation stream so that the draws of the seeded generator are unchanged
+    g_int = dict(games[0], kind="echo-int", pred=games[0]["pred"].astype(np.int64), pres=int(prs.integers(1, 2 ** 31)))
+    tasks.append((g_int, _game_calls(g_int, False, True), int(prs.integers(1 << 30))))
     import time as _t
     t0 = _t.time()
     run_pool(ctx, work_game, tasks)
@@ -1441,6 +1497,8 @@ def run(ctx, model_ok=True):
             Q = Q if cplx else Q.real
             kind = "generic16"
         ht.append({"kind": kind, "Q": Q, "n": 2, "cplx": cplx})
+    for t in ht:
+        t["pres"] = int(prs.integers(1, 2 ** 31))
     t0 = _t.time()
     run_pool(ctx, work_hedge, ht)
     ctx.extra["phase_wall_s"]["hedging"] = round(_t.time() - t0, 1)
@@ -1454,13 +1512,15 @@ def run(ctx, model_ok=True):
         ct.append({"kind": "random", "states": st, "probs": pr, "n": 1})
     for i, (st, pr) in enumerate(ens[: (5 if quick else 30)]):
         ct.append({"kind": "random", "states": st, "probs": pr, "n": 2, "certify": i < (2 if quick else 10)})
+    for t in ct:
+        t["pres"] = int(prs.integers(1, 2 ** 31))
     t0 = _t.time()
     run_pool(ctx, work_clone, ct)
     ctx.extra["phase_wall_s"]["cloning"] = round(_t.time() - t0, 1)
     ctx.extra["tolerances"] = {"scs_value": TAU, "primal_dual_agreement": 2 * TAU}
     ctx.extra["certified_interval_width_bound"] = WIDTH_OK
     # ---- feasibility embedding into the captured NPA / non-signalling programs of extended games
-    ext_embedding(ctx, quick)
+    ext_embedding(ctx, quick, prs)
 
 
 def replay(ctx, rec):
@@ -1468,12 +1528,12 @@ def replay(ctx, rec):
     res = Result()
     part = a.get("part")
     if part == "game":
-        inst = {"kind": a.get("kind", "replay"), "prob": np.array(a["prob"], dtype=float), "pred": _from_ri(a["pred"]), "cplx": a.get("cplx", False)}
+        inst = {"kind": a.get("kind", "replay"), "prob": np.array(a["prob"], dtype=float), "pred": _from_ri(a["pred"]), "cplx": a.get("cplx", False), "pres": a.get("pres")}
         fn = a.get("fn")
         calls = [fn] if fn in ("unentangled", "nonsignaling", "npa1", "npa2", "seesaw") else ["unentangled", "nonsignaling", "npa1", "seesaw"]
         work_game((inst, calls, int(rec.get("seed", 0))), res)
     elif part == "ext_embed":
-        inst = {"kind": a.get("kind", "replay"), "prob": np.array(a["prob"], dtype=float), "pred": _from_ri(a["pred"]), "cplx": a.get("cplx", False)}
+        inst = {"kind": a.get("kind", "replay"), "prob": np.array(a["prob"], dtype=float), "pred": _from_ri(a["pred"]), "cplx": a.get("cplx", False), "pres": a.get("pres")}
         if inst["cplx"]:
             inst["pred"] = np.asarray(inst["pred"], dtype=complex)
         fn = a.get("fn", "")
@@ -1483,9 +1543,9 @@ def replay(ctx, rec):
         task = {"inst": inst, "k": a.get("k") or 1, "rhos": [rho], "strategies": strat, "quantum_seeds": [a["seed"]] if "seed" in a else []}
         (work_ext_ns if fn.startswith("ext_ns") else work_ext_npa)(task, res)
     elif part == "hedge":
-        work_hedge({"kind": a.get("kind", "replay"), "Q": _from_ri(a["Q"]), "n": a["n"], "cplx": a.get("cplx", False)}, res)
+        work_hedge({"kind": a.get("kind", "replay"), "Q": _from_ri(a["Q"]), "n": a["n"], "cplx": a.get("cplx", False), "pres": a.get("pres")}, res)
     elif part == "clone":
-        work_clone({"kind": a.get("kind", "replay"), "states": [np.array(s, dtype=float).reshape(2, 1) for s in a["states"]], "probs": a["probs"], "n": a["n"]}, res)
+        work_clone({"kind": a.get("kind", "replay"), "states": [np.array(s, dtype=float).reshape(2, 1) for s in a["states"]], "probs": a["probs"], "n": a["n"], "pres": a.get("pres")}, res)
     else:
         tie_checks(ctx)
     fold(ctx, res)
